@@ -53,28 +53,31 @@ def del (m : KMap κ α) (k : κ) : KMap κ α := ⟨m.m.erase k⟩
 def size (m : KMap κ α) : Nat := m.m.size
 def has (m : KMap κ α) (k : κ) : Bool := (m.get? k).isSome
 
-variable [LawfulBEq κ] [LawfulHashable κ]
 @[simp] theorem get?_empty (k : κ) : (empty : KMap κ α).get? k = none := by
   simp [empty, get?]
+@[simp] theorem size_empty : (empty : KMap κ α).size = 0 := by simp [empty, size]
+
+variable [DecidableEq κ] [LawfulBEq κ] [LawfulHashable κ]
 theorem get?_set (m : KMap κ α) (k a : κ) (v : α) :
     (m.set k v).get? a = if k = a then some v else m.get? a := by
-  simp [set, get?, Std.HashMap.getElem?_insert]
+  simp only [set, get?, Std.HashMap.getElem?_insert, beq_iff_eq]
 theorem get?_del (m : KMap κ α) (k a : κ) :
     (m.del k).get? a = if k = a then none else m.get? a := by
-  simp [del, get?, Std.HashMap.getElem?_erase]
-@[simp] theorem size_empty : (empty : KMap κ α).size = 0 := by simp [empty, size]
+  simp only [del, get?, Std.HashMap.getElem?_erase, beq_iff_eq]
+omit [DecidableEq κ] in
 theorem size_set (m : KMap κ α) (k : κ) (v : α) :
     (m.set k v).size = if (m.get? k).isSome then m.size else m.size + 1 := by
   simp only [set, size, get?, Std.HashMap.size_insert]
   by_cases h : k ∈ m.m
   · simp [h]
-  · simp [h, Std.HashMap.getElem?_eq_none h]
+  · simp [h]
+omit [DecidableEq κ] in
 theorem size_del (m : KMap κ α) (k : κ) :
     (m.del k).size = if (m.get? k).isSome then m.size - 1 else m.size := by
   simp only [del, size, get?, Std.HashMap.size_erase]
   by_cases h : k ∈ m.m
   · simp [h]
-  · simp [h, Std.HashMap.getElem?_eq_none h]
+  · simp [h]
 end KMap
 
 /-! ### geometry (from the generated constants) -/
@@ -180,6 +183,16 @@ def nbrs : List Nat → Nat → List Nat
     (if b = x then [a] else []) ++ (if a = x then [b] else []) ++ nbrs (b :: rest) x
   | _, _ => []
 
+/-- the slot at the head of a global free list (its `prev` field is written when the head changes) -/
+def headAddrs : List (Nat × Nat) → List Addr
+  | [] => []
+  | (q, j) :: _ => [Addr.sh q j]
+
+/-- the slot at the head of the per-page free list of page p -/
+def headSlots (p : Nat) : List Nat → List Addr
+  | [] => []
+  | j :: _ => [Addr.sh p j]
+
 /-! ### Malloc -/
 
 /-- mmapSharedPage + linkSharedPage (Malloc) / newSharedPageLocal (defrag): a fresh zeroed page
@@ -218,8 +231,7 @@ def allocSlot (s : State V) (c : Nat) : Except Err (State V × Nat × Nat) :=
         let h' := { h with freeList := h.freeList.erase i, used := h.used + 1, free := h.free - 1 }
         let k' := { k with glist := rest, freeSlots := k.freeSlots - 1 }
         -- node writes: next.prev := 0 ; per-page neighbours' prevInPage / nextInPage
-        let wr := (match rest with | [] => [] | (q, j) :: _ => [Addr.sh q j]) ++
-                  (nbrs h.freeList i).map (Addr.sh p)
+        let wr := headAddrs rest ++ (nbrs h.freeList i).map (Addr.sh p)
         .ok ({ s with pages := s.pages.set p h', cls := s.cls.set c k', mem := clobber s.mem wr }, p, i)
 
 /-- a slot of class c is handed out as a slice with the given Len/Cap and payload value:
@@ -262,8 +274,7 @@ def freeSlot (s : State V) (p i : Nat) (h : Page) : State V :=
              cls := s.cls.set c { k with freeSlots := k.freeSlots + 1 } }
   else
     -- node writes: p.{prev,next,prevInPage,nextInPage}; old global head .prev; old page head .prevInPage
-    let wr := [Addr.sh p i] ++ (match k.glist with | [] => [] | (q, j) :: _ => [Addr.sh q j]) ++
-              (match h.freeList with | [] => [] | j :: _ => [Addr.sh p j])
+    let wr := [Addr.sh p i] ++ headAddrs k.glist ++ headSlots p h.freeList
     { s with pages := s.pages.set p { h with used := h.used - 1, free := h.free + 1, freeList := i :: h.freeList },
              cls := s.cls.set c { k with freeSlots := k.freeSlots + 1, glist := (p, i) :: k.glist },
              mem := clobber s.mem wr }
@@ -302,20 +313,28 @@ def write (s : State V) (a : Addr) (v : V) : Except Err (State V) :=
 
 def usedOf (s : State V) (p : Nat) : Nat := match s.pages.get? p with | some h => h.used | none => 0
 
+def insertSorted (x : Nat) : List Nat → List Nat
+  | [] => [x]
+  | y :: r => if x ≤ y then x :: y :: r else y :: insertSorted x r
+def sortNat (l : List Nat) : List Nat := l.foldr insertSorted []
+
+/-- how many pages the selection loop of defragClass takes, given the `used` values in ascending
+    order and the records freed so far: pages are appended until `recordsToFree ≥ target`. -/
+def selCount (cap target : Nat) : List Nat → Nat → Nat
+  | [], _ => 0
+  | u :: r, acc => if acc + (cap - u) ≥ target then 1 else 1 + selCount cap target r (acc + (cap - u))
+
+/-- the `used` values of the pages the selection loop takes (independent of how `sort.Slice` orders
+    equally used pages) -/
+def selUsed (s : State V) (cap target : Nat) (nonFull : List Nat) : List Nat :=
+  let su := sortNat (nonFull.map (usedOf s))
+  su.take (selCount cap target su 0)
+
 /-- does the offered evacuation order agree with "sort by used ascending, take pages until
-    recordsToFree ≥ target (or all non-full pages)"? -/
+    recordsToFree ≥ target (or all non-full pages)"?  Distinct non-full pages whose `used` values are
+    exactly those of the sorted prefix. -/
 def legalChoice (s : State V) (cap target : Nat) (nonFull ev : List Nat) : Bool :=
-  let rec sorted : List Nat → Bool
-    | a :: b :: r => decide (usedOf s a ≤ usedOf s b) && sorted (b :: r)
-    | _ => true
-  -- running sum of freed records stays below target before the last page
-  let rec stops : List Nat → Nat → Bool
-    | [], _ => false
-    | [a], acc => decide (acc + (cap - usedOf s a) ≥ target) || decide (ev.length = nonFull.length)
-    | a :: r, acc => decide (acc + (cap - usedOf s a) < target) && stops r (acc + (cap - usedOf s a))
-  let lastUsed := match ev.getLast? with | some p => usedOf s p | none => 0
-  ev.Nodup && ev.all (nonFull.contains ·) && sorted ev && stops ev 0 &&
-    nonFull.all (fun p => ev.contains p || decide (lastUsed ≤ usedOf s p))
+  ev.Nodup && ev.all (nonFull.contains ·) && (ev.map (usedOf s) == selUsed s cap target nonFull)
 
 /-- first loop over pagesToEvacuate, one page: mark evacuating, drop it as current page, remember its
     free slots, unlink them from the global free list, clear the per-page list. -/
@@ -356,9 +375,7 @@ def moveNext (s : State V) (c pg : Nat) : Except Err (State V) :=
                               relog := (old, new) :: s1.relog }
           match s2.pages.get? pg with
           | none => .error .corrupt
-          | some h2 => .ok (let s3 := freeSlot s2 pg i h2
-                            { s3 with pages := s3.pages.set pg
-                                { ((s3.pages.get? pg).getD h2) with scan := i + 1 } })
+          | some h2 => .ok (freeSlot s2 pg i { h2 with scan := i + 1 })
       | _, _ => .error .corrupt
 
 def iter {σ : Type} (f : σ → Except Err σ) : Nat → σ → Except Err σ
@@ -402,9 +419,10 @@ def defragClass (s : State V) (c : Nat) (ev : List Nat) : Except Err (State V) :
   let nonFull := k.plist.filter (fun p => usedOf s p < cap)
   if nonFull.isEmpty then (if ev.isEmpty then .ok s else .error .illegalChoice) else
   let target := cap * (potential - minFreePagesTo)
+  -- `recordsToMove` does not depend on the order among equally used pages
+  let recordsToMove := (selUsed s cap target nonFull).sum
+  if recordsToMove = 0 then (if ev.isEmpty then .ok s else .error .illegalChoice) else
   if !legalChoice s cap target nonFull ev then .error .illegalChoice else
-  let recordsToMove := (ev.map (usedOf s)).sum
-  if recordsToMove = 0 then .ok s else
   match foldE (fun s pg => beginEvac s c pg) s ev with
   | .error e => .error e
   | .ok s1 => foldE (fun s pg => evacPage s c pg) s1 ev
